@@ -344,4 +344,312 @@ Section Round.
               unfold nomatch in *. rewrite RK. exact Hsr. }
       rewrite (ROWS srows [] (fun t (H : In t []) => match H with end) Hdist Hd Hkd). reflexivity.
   Qed.
+
+  (** ** [fill] and [prune] stay inside the domain *)
+  Definition wfd_go : list snode -> content -> bool :=
+    fix go (ks : list snode) (c : content) {struct ks} : bool :=
+      match ks, c with
+      | [], [] => true
+      | k :: ks', od :: c' => (match od with Some dk => wfd k dk | None => true end) && go ks' c'
+      | _, _ => false
+      end.
+  Lemma wfd_go_eq : forall m kids c, wfd (SCont m kids) (DCont c) = wfd_go kids c.
+  Proof. reflexivity. Qed.
+  Definition kd_go : list snode -> content -> bool :=
+    fix go (ks : list snode) (c : content) {struct ks} : bool :=
+      match ks, c with
+      | k :: ks', od :: c' => (match od with Some dk => keys_distinct k dk | None => true end) && go ks' c'
+      | _, _ => true
+      end.
+  Lemma kd_go_eq : forall m kids c, keys_distinct (SCont m kids) (DCont c) = kd_go kids c.
+  Proof. reflexivity. Qed.
+  Definition prune_go : list snode -> content -> content :=
+    fix go (ks : list snode) (c : content) {struct ks} : content :=
+      match ks, c with
+      | k :: ks', od :: c' => (match od with Some dk => prune k dk | None => None end) :: go ks' c'
+      | _, _ => []
+      end.
+  Lemma prune_go_eq : forall m kids c, prune (SCont m kids) (DCont c) = Some (DCont (prune_go kids c)).
+  Proof. reflexivity. Qed.
+
+  Lemma wfd_list_eq : forall m keys row rows, wfd (SList m keys row) (DList rows) =
+    forallb (fun r => wfd row r && forallb present (row_key keys r)) rows.
+  Proof. reflexivity. Qed.
+  Lemma kd_list_eq : forall m keys row rows, keys_distinct (SList m keys row) (DList rows) =
+    rows_distinct keys rows && forallb (keys_distinct row) rows.
+  Proof. reflexivity. Qed.
+  Lemma fill_list_eq : forall new m keys row rows, fill new (SList m keys row) (DList rows) = DList (map (fill true row) rows).
+  Proof. reflexivity. Qed.
+
+  (** the schema's defaults are values of their leaves *)
+  Fixpoint dflt_ok (s : snode) : bool :=
+    match s with
+    | SLeaf m ty il (Some v) => wfd (SLeaf m ty il (Some v)) (DLeaf v)
+    | SLeaf _ _ _ None => true
+    | SCont _ kids => (fix all (l : list snode) : bool := match l with [] => true | k :: l' => dflt_ok k && all l' end) kids
+    | SList _ _ row => dflt_ok row
+    end.
+  Lemma dflt_all_Forall : forall kids,
+    (fix all (l : list snode) : bool := match l with [] => true | k :: l' => dflt_ok k && all l' end) kids = true ->
+    Forall (fun k => dflt_ok k = true) kids.
+  Proof.
+    induction kids as [|k l IH]; intros H; [constructor|].
+    apply andb_true_iff in H. destruct H as (A & B). constructor; [exact A | apply IH; exact B].
+  Qed.
+
+  Lemma wfd_leaf_indep : forall m ty il d1 d2 v, wfd (SLeaf m ty il d1) (DLeaf v) = wfd (SLeaf m ty il d2) (DLeaf v).
+  Proof. reflexivity. Qed.
+
+  Lemma prune_keeps_present : forall kids c i, wfd_go kids c = true ->
+    present (nth i c None) = true -> key_leaf kids i = true ->
+    nth i (prune_go kids c) None = nth i c None.
+  Proof.
+    induction kids as [|k ks IH]; intros c i Hw Hp Hk.
+    - destruct i; discriminate Hk.
+    - destruct c as [|od c]; [discriminate Hw|].
+      cbn [wfd_go] in Hw. apply andb_true_iff in Hw. destruct Hw as (Hd0 & Hw).
+      destruct i as [|i].
+      + unfold key_leaf in Hk. cbn in Hk. destruct k as [m0 ty0 [|] df0| |]; try discriminate Hk.
+        cbn. cbn in Hp. destruct od as [[v| |]|]; try discriminate Hp; try discriminate Hd0. reflexivity.
+      + cbn [nth prune_go]. apply IH; assumption.
+  Qed.
+  Lemma prune_row_key : forall m kids keys c,
+    wfd (SCont m kids) (DCont c) = true ->
+    forallb (key_leaf kids) keys = true -> forallb present (row_key keys (DCont c)) = true ->
+    row_key keys (pruned (SCont m kids) (DCont c)) = row_key keys (DCont c).
+  Proof.
+    intros m kids keys c Hw Hk Hp. unfold pruned. rewrite prune_go_eq. unfold row_key in *. cbn [row_content] in *.
+    apply map_ext_in. intros i Hi.
+    rewrite forallb_forall in Hk, Hp. specialize (Hk i Hi). specialize (Hp (nth i c None) (in_map _ _ _ Hi)).
+    apply prune_keeps_present; assumption.
+  Qed.
+
+  Lemma row_is_cont : forall m keys row, wfs (SList m keys row) = true ->
+    exists m' kids', row = SCont m' kids' /\ wfs row = true /\ forallb (key_leaf kids') keys = true.
+  Proof.
+    intros m keys row Hs. cbn [XmlViewProofs.wfs] in Hs. apply andb_true_iff in Hs. destruct Hs as (Hs & Hrow).
+    apply andb_true_iff in Hs. destruct Hs as (_ & Hwrow).
+    destruct row as [| m' kids' |]; try discriminate Hrow.
+    apply andb_true_iff in Hrow. destruct Hrow as (_ & Hkeys).
+    exists m', kids'. repeat split; assumption.
+  Qed.
+
+  Theorem fill_wfd : forall s, wfs s = true -> dflt_ok s = true -> forall new d, wfd s d = true -> wfd s (fill new s d) = true.
+  Proof.
+    induction s as [m ty il dflt | m kids IHk | m keys row IHrow] using snode_ind2; intros Hs Hdf new d Hd.
+    - destruct d; exact Hd.
+    - destruct d as [|c|]; try discriminate Hd.
+      cbn [XmlViewProofs.wfs] in Hs. apply andb_true_iff in Hs. destruct Hs as (_ & Hall). apply wfs_all_Forall in Hall.
+      cbn [dflt_ok] in Hdf. apply dflt_all_Forall in Hdf.
+      rewrite fill_cont_eq, wfd_go_eq in *.
+      revert c Hd. induction kids as [|k ks IH]; intros c Hd.
+      + destruct c; [reflexivity | discriminate Hd].
+      + destruct c as [|od c]; [discriminate Hd|].
+        cbn [wfd_go] in Hd. apply andb_true_iff in Hd. destruct Hd as (Hd0 & Hd).
+        pose proof (Forall_inv IHk) as Pk. pose proof (Forall_inv Hall) as Wk. pose proof (Forall_inv Hdf) as Dk. cbv beta in Pk, Wk, Dk.
+        cbn [fill_go wfd_go]. rewrite (IH (Forall_inv_tail IHk) (Forall_inv_tail Hall) (Forall_inv_tail Hdf) c Hd), andb_true_r.
+        destruct k as [mk tyk ilk dfk | mk kk | mk keysk rowk]; cbn [fill_kid].
+        * destruct od as [x|]; [exact Hd0|]. destruct new; [|reflexivity].
+          destruct dfk as [dv|]; [|reflexivity]. cbn [option_map]. exact Dk.
+        * destruct od as [x|]; [|reflexivity]. apply Pk; assumption.
+        * destruct od as [x|]; [|reflexivity]. apply Pk; assumption.
+    - destruct d as [| |rows]; try discriminate Hd.
+      destruct (row_is_cont m keys row Hs) as (m' & kids' & Er & Hwrow & Hkeys). subst row.
+      change (dflt_ok (SCont m' kids') = true) in Hdf. rewrite fill_list_eq. rewrite wfd_list_eq in *.
+      rewrite forallb_forall in Hd |- *. intros r' Hr'. apply in_map_iff in Hr'. destruct Hr' as (r & Er & Hr). subst r'.
+      specialize (Hd r Hr). apply andb_true_iff in Hd. destruct Hd as (Hw & Hp).
+      rewrite (IHrow Hwrow Hdf true r Hw). cbn [andb].
+      destruct r as [|cr|]; try discriminate Hw.
+      rewrite (fill_row_key m' kids' keys cr Hkeys Hp). exact Hp.
+  Qed.
+
+  Theorem fill_keys_distinct : forall s, wfs s = true -> forall new d, wfd s d = true ->
+    keys_distinct s d = true -> keys_distinct s (fill new s d) = true.
+  Proof.
+    induction s as [m ty il dflt | m kids IHk | m keys row IHrow] using snode_ind2; intros Hs new d Hd Hk.
+    - destruct d; reflexivity.
+    - destruct d as [|c|]; try discriminate Hd.
+      cbn [XmlViewProofs.wfs] in Hs. apply andb_true_iff in Hs. destruct Hs as (_ & Hall). apply wfs_all_Forall in Hall.
+      rewrite fill_cont_eq. rewrite wfd_go_eq in Hd. rewrite kd_go_eq in *.
+      revert c Hd Hk. induction kids as [|k ks IH]; intros c Hd Hk; [reflexivity|].
+      destruct c as [|od c]; [discriminate Hd|].
+      cbn [wfd_go] in Hd. apply andb_true_iff in Hd. destruct Hd as (Hd0 & Hd).
+      cbn [kd_go] in Hk. apply andb_true_iff in Hk. destruct Hk as (Hk0 & Hk).
+      pose proof (Forall_inv IHk) as Pk. pose proof (Forall_inv Hall) as Wk. cbv beta in Pk, Wk.
+      cbn [fill_go kd_go]. rewrite (IH (Forall_inv_tail IHk) (Forall_inv_tail Hall) c Hd Hk), andb_true_r.
+      destruct k as [mk tyk ilk dfk | mk kk | mk keysk rowk]; cbn [fill_kid].
+      + destruct od as [[v| |]|]; try reflexivity. destruct new; [|reflexivity]. destruct dfk; reflexivity.
+      + destruct od as [x|]; [|reflexivity]. apply Pk; assumption.
+      + destruct od as [x|]; [|reflexivity]. apply Pk; assumption.
+    - destruct d as [| |rows]; try discriminate Hd.
+      destruct (row_is_cont m keys row Hs) as (m' & kids' & Er & Hwrow & Hkeys). subst row.
+      rewrite fill_list_eq. rewrite kd_list_eq in *. rewrite wfd_list_eq in Hd.
+      apply andb_true_iff in Hk. destruct Hk as (Hdist & Hkd).
+      assert (RK : forall r, In r rows -> row_key keys (fill true (SCont m' kids') r) = row_key keys r).
+      { intros r Hr. rewrite forallb_forall in Hd. specialize (Hd r Hr). apply andb_true_iff in Hd. destruct Hd as (Hw & Hp).
+        destruct r as [|cr|]; try discriminate Hw. apply fill_row_key; assumption. }
+      apply andb_true_iff. split.
+      + clear Hkd Hd. induction rows as [|r rows IH]; [reflexivity|].
+        cbn [rows_distinct map] in *. apply andb_true_iff in Hdist. destruct Hdist as (H1 & H2).
+        apply andb_true_iff. split.
+        * rewrite forallb_forall in *. intros t Ht. apply in_map_iff in Ht. destruct Ht as (t0 & Et & Ht0). subst t.
+          specialize (H1 t0 Ht0). unfold nomatch in *.
+          rewrite (RK r (or_introl eq_refl)), (RK t0 (or_intror Ht0)). exact H1.
+        * apply IH; [exact H2|]. intros r0 Hr0. apply RK. right. exact Hr0.
+      + rewrite forallb_forall in *. intros r' Hr'. apply in_map_iff in Hr'. destruct Hr' as (r & Er & Hr). subst r'.
+        specialize (Hd r Hr). apply andb_true_iff in Hd. destruct Hd as (Hw & _).
+        apply IHrow; [exact Hwrow | exact Hw | apply Hkd; exact Hr].
+  Qed.
+
+  Lemma prune_list_eq : forall m keys row r rows, prune (SList m keys row) (DList (r :: rows)) =
+    Some (DList (map (fun r => match prune row r with Some r' => r' | None => r end) (r :: rows))).
+  Proof. reflexivity. Qed.
+
+  Lemma prune_row_same : forall m kids r, wfd (SCont m kids) r = true ->
+    (match prune (SCont m kids) r with Some r' => r' | None => r end) = pruned (SCont m kids) r.
+  Proof. intros m kids r H. destruct r; try discriminate H. reflexivity. Qed.
+
+  Theorem prune_wfd : forall s, wfs s = true -> forall d, wfd s d = true ->
+    match prune s d with Some p => wfd s p = true | None => True end.
+  Proof.
+    induction s as [m ty il dflt | m kids IHk | m keys row IHrow] using snode_ind2; intros Hs d Hd.
+    - destruct d as [v| |]; try (destruct il; discriminate Hd).
+      destruct il; [|exact Hd]. destruct v as [| | |[|v0 items]]; try discriminate Hd; [exact I | exact Hd].
+    - destruct d as [|c|]; try discriminate Hd.
+      cbn [XmlViewProofs.wfs] in Hs. apply andb_true_iff in Hs. destruct Hs as (_ & Hall). apply wfs_all_Forall in Hall.
+      rewrite prune_go_eq. rewrite wfd_go_eq in *.
+      revert c Hd. induction kids as [|k ks IH]; intros c Hd.
+      + destruct c; [reflexivity | discriminate Hd].
+      + destruct c as [|od c]; [discriminate Hd|].
+        cbn [wfd_go] in Hd. apply andb_true_iff in Hd. destruct Hd as (Hd0 & Hd).
+        pose proof (Forall_inv IHk) as Pk. pose proof (Forall_inv Hall) as Wk. cbv beta in Pk, Wk.
+        cbn [prune_go wfd_go]. rewrite (IH (Forall_inv_tail IHk) (Forall_inv_tail Hall) c Hd), andb_true_r.
+        destruct od as [dk|]; [|reflexivity].
+        specialize (Pk Wk dk Hd0). destruct (prune k dk); [exact Pk | reflexivity].
+    - destruct d as [| |rows]; try discriminate Hd.
+      destruct rows as [|r0 rows]; [exact I|].
+      destruct (row_is_cont m keys row Hs) as (m' & kids' & Er & Hwrow & Hkeys). subst row.
+      rewrite prune_list_eq. remember (r0 :: rows) as rs. clear Heqrs.
+      rewrite wfd_list_eq in *. rewrite forallb_forall in Hd |- *.
+      intros r' Hr'. apply in_map_iff in Hr'. destruct Hr' as (r & Er & Hr). subst r'.
+      specialize (Hd r Hr). apply andb_true_iff in Hd. destruct Hd as (Hw & Hp).
+      rewrite (prune_row_same m' kids' r Hw).
+      destruct r as [|cr|]; try discriminate Hw.
+      rewrite (prune_row_key m' kids' keys cr Hw Hkeys Hp), Hp, andb_true_r.
+      specialize (IHrow Hwrow (DCont cr) Hw). unfold pruned.
+      destruct (prune (SCont m' kids') (DCont cr)) eqn:EP; [exact IHrow | discriminate EP].
+  Qed.
+
+  Theorem prune_keys_distinct : forall s, wfs s = true -> forall d, wfd s d = true -> keys_distinct s d = true ->
+    match prune s d with Some p => keys_distinct s p = true | None => True end.
+  Proof.
+    induction s as [m ty il dflt | m kids IHk | m keys row IHrow] using snode_ind2; intros Hs d Hd Hk.
+    - destruct (prune (SLeaf m ty il dflt) d) as [[| |]|]; try exact I; reflexivity.
+    - destruct d as [|c|]; try discriminate Hd.
+      cbn [XmlViewProofs.wfs] in Hs. apply andb_true_iff in Hs. destruct Hs as (_ & Hall). apply wfs_all_Forall in Hall.
+      rewrite prune_go_eq. rewrite wfd_go_eq in Hd. rewrite kd_go_eq in *.
+      revert c Hd Hk. induction kids as [|k ks IH]; intros c Hd Hk; [reflexivity|].
+      destruct c as [|od c]; [discriminate Hd|].
+      cbn [wfd_go] in Hd. apply andb_true_iff in Hd. destruct Hd as (Hd0 & Hd).
+      cbn [kd_go] in Hk. apply andb_true_iff in Hk. destruct Hk as (Hk0 & Hk).
+      pose proof (Forall_inv IHk) as Pk. pose proof (Forall_inv Hall) as Wk. cbv beta in Pk, Wk.
+      cbn [prune_go kd_go]. rewrite (IH (Forall_inv_tail IHk) (Forall_inv_tail Hall) c Hd Hk), andb_true_r.
+      destruct od as [dk|]; [|reflexivity].
+      specialize (Pk Wk dk Hd0 Hk0). destruct (prune k dk); [exact Pk | reflexivity].
+    - destruct d as [| |rows]; try discriminate Hd.
+      destruct rows as [|r0 rows]; [exact I|].
+      destruct (row_is_cont m keys row Hs) as (m' & kids' & Er & Hwrow & Hkeys). subst row.
+      rewrite prune_list_eq. remember (r0 :: rows) as rs. clear Heqrs.
+      rewrite kd_list_eq in *. rewrite wfd_list_eq in Hd.
+      apply andb_true_iff in Hk. destruct Hk as (Hdist & Hkd).
+      assert (F : forall r, In r rs ->
+                (match prune (SCont m' kids') r with Some r' => r' | None => r end) = pruned (SCont m' kids') r /\
+                row_key keys (pruned (SCont m' kids') r) = row_key keys r).
+      { intros r Hr. rewrite forallb_forall in Hd. specialize (Hd r Hr). apply andb_true_iff in Hd. destruct Hd as (Hw & Hp).
+        split; [apply prune_row_same; exact Hw|].
+        destruct r as [|cr|]; try discriminate Hw. apply prune_row_key; assumption. }
+      apply andb_true_iff. split.
+      + clear Hkd Hd. induction rs as [|r rs IH]; [reflexivity|].
+        cbn [rows_distinct map] in *. apply andb_true_iff in Hdist. destruct Hdist as (H1 & H2).
+        apply andb_true_iff. split.
+        * rewrite forallb_forall in *. intros t Ht. apply in_map_iff in Ht. destruct Ht as (t0 & Et & Ht0). subst t.
+          specialize (H1 t0 Ht0). unfold nomatch in *.
+          destruct (F r (or_introl eq_refl)) as (E1 & K1). destruct (F t0 (or_intror Ht0)) as (E2 & K2).
+          rewrite E1, E2, K1, K2. exact H1.
+        * apply IH; [exact H2|]. intros r1 Hr1. apply F. right. exact Hr1.
+      + rewrite forallb_forall in *. intros r' Hr'. apply in_map_iff in Hr'. destruct Hr' as (r & Er & Hr). subst r'.
+        specialize (Hd r Hr). apply andb_true_iff in Hd. destruct Hd as (Hw & _).
+        specialize (IHrow Hwrow r Hw (Hkd r Hr)).
+        destruct (prune (SCont m' kids') r); [exact IHrow | apply Hkd; exact Hr].
+  Qed.
+
+  Lemma pruned_ok : forall s d, wfs s = true -> is_leaf s = false -> wfd s d = true -> keys_distinct s d = true ->
+    wfd s (pruned s d) = true /\ keys_distinct s (pruned s d) = true.
+  Proof.
+    intros s d Hs Hl Hd Hk. pose proof (prune_wfd s Hs d Hd) as A. pose proof (prune_keys_distinct s Hs d Hd Hk) as B.
+    unfold pruned. destruct (prune s d) eqn:EP; [split; assumption|].
+    destruct s; [discriminate Hl | |]; destruct d; try discriminate Hd.
+    - rewrite prune_go_eq in EP. discriminate EP.
+    - split; reflexivity.
+  Qed.
+
+  (** ** the two writers write the same element tree *)
+  Lemma ns1_eq : forall m, meta_ok nss m = true -> ns1_of nss (nm_mod m) = ns_of nss (nm_mod m).
+  Proof.
+    intros m Hm. unfold ns1_of. destruct (ns_of nss (nm_mod m)) eqn:E; [|reflexivity].
+    unfold meta_ok in Hm. rewrite E in Hm. cbn in Hm. rewrite andb_false_r in Hm. discriminate Hm.
+  Qed.
+  Lemma nsattr1_eq : forall pns m, meta_ok nss m = true -> nsattr1 nss false pns m = nsattr2 nss pns m.
+  Proof. intros pns m Hm. unfold nsattr1, nsattr2. rewrite (ns1_eq m Hm). reflexivity. Qed.
+
+  Theorem writers_agree_node : forall k, wfs k = true -> forall pns d,
+    wtr1_node nss enum_ids fmt_dec false pns k d = wtr2_node nss enum_ids fmt_dec pns k d.
+  Proof.
+    induction k as [m ty il dflt | m kids IHk | m keys row IHrow] using snode_ind2; intros Hs pns d.
+    - destruct d; try reflexivity. cbn [wtr1_node wtr2_node]. rewrite (nsattr1_eq pns m Hs). reflexivity.
+    - destruct d as [|c|]; try reflexivity.
+      pose proof (smeta_ok nss _ Hs) as Hm. cbn [smeta] in Hm.
+      cbn [XmlViewProofs.wfs] in Hs. apply andb_true_iff in Hs. destruct Hs as (_ & Hall). apply wfs_all_Forall in Hall.
+      cbn [wtr1_node wtr2_node]. rewrite (nsattr1_eq pns m Hm), (ns1_eq m Hm). do 2 f_equal.
+      generalize (ns_of nss (nm_mod m)) as ns. intros ns.
+      revert c. induction kids as [|k ks IH]; intros c; [reflexivity|].
+      destruct c as [|[dk|] c]; [reflexivity | |].
+      + rewrite (Forall_inv IHk (Forall_inv Hall)). f_equal. apply IH; [exact (Forall_inv_tail IHk) | exact (Forall_inv_tail Hall)].
+      + apply IH; [exact (Forall_inv_tail IHk) | exact (Forall_inv_tail Hall)].
+    - destruct d as [| |rows]; try reflexivity.
+      cbn [XmlViewProofs.wfs] in Hs. apply andb_true_iff in Hs. destruct Hs as (Hs & _). apply andb_true_iff in Hs. destruct Hs as (_ & Hrow).
+      cbn [wtr1_node wtr2_node]. induction rows as [|r rows IH]; [reflexivity|].
+      cbn [flat_map]. rewrite IH, (IHrow Hrow). reflexivity.
+  Qed.
+
+  Theorem writers_agree : forall s d, wfs s = true ->
+    wtr1_doc nss enum_ids fmt_dec false s d = wtr2_doc nss enum_ids fmt_dec s d.
+  Proof.
+    intros s d Hs. pose proof (smeta_ok nss _ Hs) as Hm.
+    destruct s as [| m kids | m keys row]; [reflexivity | |]; cbn [smeta] in Hm;
+      unfold wtr1_doc, wtr2_doc; rewrite (writers_agree_node _ Hs), (ns1_eq m Hm);
+      unfold root_attr2; destruct (ns_of nss (nm_mod m)) eqn:E; try reflexivity;
+      unfold meta_ok in Hm; rewrite E in Hm; cbn in Hm; rewrite andb_false_r in Hm; discriminate Hm.
+  Qed.
+
+  (** ** the round trip *)
+  Definition norm (s : snode) (d : dnode) : dnode := fill false s (pruned s (fill false s d)).
+
+  Theorem xml_roundtrip : forall stream s d,
+    wfs s = true -> dflt_ok s = true -> is_leaf s = false -> wfd s d = true -> keys_distinct s d = true ->
+    exists x, write_doc nss enum_ids fmt_dec false stream s d = Some x /\ doc_wf x = true /\
+              read_doc nss parse_dec false s x = Ok (norm s d).
+  Proof.
+    intros stream s d Hs Hdf Hl Hd Hk.
+    pose proof (edit_fresh s Hs Hl d false Hd Hk) as EX.
+    pose proof (fill_wfd s Hs Hdf false d Hd) as Wf.
+    pose proof (fill_keys_distinct s Hs false d Hd Hk) as Kf.
+    destruct (xml_view_inverse nss enum_ids fmt_dec parse_dec dec_ok dec_contract s (fill false s d) Hs Wf Hl)
+      as (x & Ew & Hwf & Ev).
+    exists x. split; [|split; [exact Hwf|]].
+    - unfold write_doc, export. rewrite EX. destruct stream; [rewrite writers_agree by exact Hs|]; exact Ew.
+    - unfold read_doc. rewrite Ev.
+      destruct (pruned_ok s (fill false s d) Hs Hl Wf Kf) as (Wp & Kp).
+      rewrite (edit_fresh s Hs Hl _ false Wp Kp). reflexivity.
+  Qed.
 End Round.
